@@ -126,7 +126,10 @@ func Finalizing(ctx interface{}) error {
 
 		bjob, err := context.JobStore.GetJob(tracker.GetJobID(ethereum.BusyBroadcasting))
 		if err != nil {
-			return errors.Wrap(err, "failed to get job")
+			// this node holds no broadcast job for the tracker (it did not run as a witness when the
+			// job was created): nothing to schedule here. The tracker state set above is consensus
+			// state and advances on every node alike, so the missing local job is not an error
+			return nil
 		}
 
 		if !bjob.IsDone() || bjob.IsFailed() {
